@@ -125,7 +125,7 @@ public:
   RecSink(u64 idx, std::vector<u64> throw_plan) : _idx(idx), _plan(std::move(throw_plan)) {}
   void write_log(quill::MacroMetadata const*, uint64_t, std::string_view, std::string_view, std::string const&,
                  std::string_view, quill::LogLevel level, std::string_view, std::string_view,
-                 std::vector<std::pair<std::string, std::string>> const*, std::string_view msg, std::string_view) override
+                 std::vector<std::pair<std::string, std::string>> const* named, std::string_view msg, std::string_view) override
   {
     u64 call = _calls++;
     for (u64 p : _plan)
@@ -134,7 +134,7 @@ public:
     size_t i = 0;
     while (i < msg.size() && msg[i] >= '0' && msg[i] <= '9') { id = id * 10 + static_cast<u64>(msg[i] - '0'); ++i; }
     if (i == 0 || i >= msg.size() || msg[i] != ':') id = 0; // error text instead of the payload
-    obs({1, _idx, id, static_cast<u64>(level)});
+    obs({1, _idx, id, static_cast<u64>(level), static_cast<u64>(named ? named->size() : 0)});
   }
   void flush_sink() override { obs({2, _idx}); }
 
@@ -194,6 +194,9 @@ struct LoggerHandle
 
 static constexpr quill::MacroMetadata kLogMeta{"be.cpp:1", "drv", "{}{}", nullptr, quill::LogLevel::Dynamic,
                                                quill::MacroMetadata::Event::Log};
+// a call site whose format string has named placeholders (structured logging): two named arguments
+static constexpr quill::MacroMetadata kNamedMeta{"be.cpp:3", "drv", "{vid}{vpad}", nullptr, quill::LogLevel::Dynamic,
+                                                 quill::MacroMetadata::Event::Log};
 // static-level call sites (what LOG_TRACE_L3 ... LOG_CRITICAL, LOG_BACKTRACE expand to)
 #define VMETA(L) quill::MacroMetadata{"be.cpp:2", "drv", "{}{}", nullptr, quill::LogLevel::L, quill::MacroMetadata::Event::Log}
 static constexpr quill::MacroMetadata kStaticMeta[10] = {VMETA(TraceL3), VMETA(TraceL2), VMETA(TraceL1), VMETA(Debug), VMETA(Info),
@@ -210,6 +213,8 @@ static LoggerHandle make_logger(std::string const& name, std::vector<std::shared
   {
     auto lv = static_cast<quill::LogLevel>(level);
     if (!lg->should_log_statement(lv)) return -1;
+    if (mode >= 20)
+      return lg->template log_statement<false, true>(lv, &kNamedMeta, Thrower{id, mode % 10}, std::string(pad, 'x')) ? 1 : 0;
     if (mode >= 10 && level <= 9)
       return lg->template log_statement<false, false>(quill::LogLevel::None, &kStaticMeta[level], Thrower{id, mode % 10},
                                                       std::string(pad, 'x')) ? 1 : 0;
@@ -380,7 +385,7 @@ static void exec_simple(Cmd const& c)
   {
     Worker& w = worker(a[0]);
     int id = static_cast<int>(a[1]); u64 lgi = a[2]; int lvl = static_cast<int>(a[3]); u64 sz = a[4]; int mode = static_cast<int>(a[5]);
-    u64 const hdr = mode >= 10 ? 44 : 45; // a static-level statement carries no dynamic level byte
+    u64 const hdr = (mode >= 10 && mode < 20) ? 44 : 45; // a static-level statement carries no dynamic level byte
     size_t pad = sz >= hdr ? static_cast<size_t>(sz - hdr) : 0;
     w.stall_next_clock = (c.code == 2);
     w.result = -2;
